@@ -246,11 +246,34 @@ def r09c(chk, rid='R09.c'):
     state = {'wellformed': True}
     consumed = []
 
+    from .effects import Effects
+
+    eff = Effects.get(chk.repo)
+
+    def signature(kind):
+        for ci in eff.classes.get(kind, []):
+            if ci.rel.startswith('cssutils/css/'):
+                init = eff.mro_lookup(ci, '__init__')
+                if init is not None:
+                    return [a.arg for a in init.args.args][1:]
+        return None
+
     def mkrule(kind):
+        params = signature(kind)
+
         class R(Obj):
             margins = ('@top-left', '@bottom-center')
 
             def __init__(self, *a, **k):
+                # the model keeps the real constructor's parameter names: a slice of tokens must be bound to the text
+                if params is not None:
+                    bound = dict(zip(params, a))
+                    if len(a) > len(params) or any(x not in params for x in k):
+                        problems.append(f'{kind}({len(a)} positional, {sorted(k)}) does not fit its constructor ({params}): TypeError out of the parser')
+                    bound.update(k)
+                    for pn, v in bound.items():
+                        if v == ['tokens'] and 'text' not in pn.lower():
+                            problems.append(f'{kind}: the tokens of the statement are handed to the parameter `{pn}` (constructor {params}): the constructor does not parse them as rule text and fails on the list')
                 Obj.__init__(self, kind=kind, wellformed=state['wellformed'] or kind == 'CSSComment', prefix='p', namespaceURI='u', NAMESPACE_RULE=10, cssText=None)
         return R
 
